@@ -1506,7 +1506,7 @@ func c02SigOf(name string, nodes []c02Node, hide []string, scope string, in *c02
 	for _, e := range [][2]string{{"zstd", ".zst"}, {"br", ".br"}, {"gzip", ".gz"}} {
 		acc := false
 		for _, t := range strings.Split(in.AE, ",") {
-			if strings.TrimSpace(t) == e[0] {
+			if strings.Trim(t, " \t") == e[0] {
 				acc = true
 			}
 		}
